@@ -663,8 +663,161 @@ func ruleR18(c *Ctx) *RuleResult {
 	return r
 }
 
+// unrollOperandArray: `for _, s := range [2]*Set{a, b} { it := s.Iterator(); <inner loop over it> }` rewritten as the two
+// consecutive loops it stands for. Recognised strictly: the entry path stores two parameters into a fresh array and enters
+// outer cut A with counter -1; A's continuing path (guard counter+1 < 2) only creates the iterator from the array element
+// at counter+1 and enters inner cut B; A's other path (2 <= counter+1) returns; every path that leaves B re-enters A with
+// counter+1. The result has cut B twice (once per operand), the second entered from the first one's exhausted path and
+// returning where A returned. Returns nil when the shape is not this.
+func unrollOperandArray(gc *GCNF) *GCNF {
+	var entry *GC
+	var arr string
+	elems := map[int]string{}
+	for _, g := range gc.GCs {
+		if g.From != 0 || g.Exit.Op != "goto" || len(g.Exit.Args) != 1 || g.Exit.Args[0].String() != "#:-1" {
+			continue
+		}
+		n := 0
+		for _, ef := range g.Effects {
+			if isStore(ef) && ef.Args[0].Op == "ia" && ef.Args[0].Args[0].Op == "new" && strings.HasPrefix(ef.Args[0].Args[0].Leaf, "complit") && ef.Args[1].Op == "p" {
+				if k, ok := ef.Args[0].Args[1].constInt(); ok {
+					arr = ef.Args[0].Args[0].String()
+					elems[int(k)] = ef.Args[1].String()
+					n++
+				}
+			}
+		}
+		if n == 2 && len(elems) == 2 {
+			entry = g
+		}
+	}
+	if entry == nil || elems[0] == "" || elems[1] == "" || elems[0] == elems[1] {
+		return nil
+	}
+	A := atoiOr(entry.Exit.Leaf, -1)
+	phiA := "φ:" + itoa(A) + ".0"
+	next := "(+ #:1 " + phiA + ")"
+	var cont, ret *GC
+	for _, g := range gc.GCs {
+		if g.From != A {
+			continue
+		}
+		switch {
+		case len(g.Guards) == 1 && g.Guards[0].String() == "(< "+next+" #:2)" && g.Exit.Op == "goto" && g.Exit.Leaf != itoa(A):
+			cont = g
+		case len(g.Guards) == 1 && g.Guards[0].String() == "(<= #:2 "+next+")" && g.Exit.Op == "return" && len(g.Effects) == 0:
+			ret = g
+		default:
+			return nil
+		}
+	}
+	if cont == nil || ret == nil {
+		return nil
+	}
+	B := atoiOr(cont.Exit.Leaf, -1)
+	// the continuing path: only the iterator creation from the current array element (plus calls on that iterator)
+	elemTerm := "(index (load " + arr + ") " + next + ")"
+	for _, ef := range cont.Effects {
+		if isStore(ef) && ef.Args[0].Op == "new" && ef.Args[1].Op == "call" && strings.HasSuffix(ef.Args[1].Leaf, ").Iterator") && len(ef.Args[1].Args) == 2 && noEpoch(ef.Args[1].Args[1]) == elemTerm {
+			continue
+		}
+		if ef.Op == "do" && len(ef.Args) >= 1 && ef.Args[0].Op == "new" {
+			continue
+		}
+		return nil
+	}
+	// nothing else may mention the outer counter or the array
+	for _, g := range gc.GCs {
+		if g.From == A || g == entry {
+			continue
+		}
+		mentions := false
+		chk := func(t *Term) bool {
+			if (t.Op == "φ" && t.String() == phiA) || t.String() == arr {
+				mentions = true
+			}
+			return false
+		}
+		for _, a := range g.Guards {
+			a.any(chk)
+		}
+		for _, ef := range g.Effects {
+			ef.any(chk)
+		}
+		if g.Exit.Op == "goto" && g.Exit.Leaf == itoa(A) {
+			if g.From != B || len(g.Exit.Args) != 1 || noEpoch(g.Exit.Args[0]) != next {
+				return nil
+			}
+		} else {
+			g.Exit.any(chk)
+		}
+		if mentions {
+			return nil
+		}
+	}
+	inst := func(t *Term, i int) *Term {
+		return rewriteTerm(t, func(x *Term) *Term {
+			if x.Op == "index" && noEpoch(x) == elemTerm {
+				return leaf("p", strings.TrimPrefix(elems[i], "p:"))
+			}
+			return nil
+		})
+	}
+	out := &GCNF{Fn: gc.Fn, Cuts: gc.Cuts, NumPaths: gc.NumPaths}
+	B2 := 90 // the second instance of the inner cut
+	create := func(i int) []*Term {
+		var efs []*Term
+		for _, ef := range cont.Effects {
+			efs = append(efs, inst(ef, i))
+		}
+		return efs
+	}
+	retarget := func(t *Term, from, to int) *Term { // goto:from → goto:to
+		if t.Op == "goto" && t.Leaf == itoa(from) {
+			return nodeL("goto", itoa(to), t.Args...)
+		}
+		return t
+	}
+	for _, g := range gc.GCs {
+		switch {
+		case g == entry:
+			var efs []*Term
+			for _, ef := range g.Effects {
+				if isStore(ef) && ef.Args[0].Op == "ia" && ef.Args[0].Args[0].String() == arr {
+					continue
+				}
+				efs = append(efs, ef)
+			}
+			out.GCs = append(out.GCs, &GC{From: 0, Guards: g.Guards, Effects: append(efs, create(0)...), Exit: nodeL("goto", itoa(B), cont.Exit.Args...), Pos: g.Pos})
+		case g.From == A:
+			// dissolved
+		case g.From == B:
+			for i, b := range []int{B, B2} {
+				ng := &GC{From: b, Guards: g.Guards, Effects: g.Effects, Exit: g.Exit, Pos: g.Pos}
+				if g.Exit.Op == "goto" && g.Exit.Leaf == itoa(A) {
+					if i == 0 {
+						ng.Effects = append(append([]*Term(nil), g.Effects...), create(1)...)
+						ng.Exit = nodeL("goto", itoa(B2), cont.Exit.Args...)
+					} else {
+						ng.Exit = ret.Exit
+					}
+				} else {
+					ng.Exit = retarget(g.Exit, B, b)
+				}
+				out.GCs = append(out.GCs, ng)
+			}
+		default:
+			out.GCs = append(out.GCs, g)
+		}
+	}
+	return out
+}
+
 func checkSetAlg(c *Ctx, ct *types.Named, fn *ssa.Function, gc *GCNF, name string) ([]string, string) {
 	p := c.p
+	if u := unrollOperandArray(gc); u != nil {
+		gc = u
+	}
 	var bad []string
 	itf := methodsOf(p, ct)["Iterator"]
 	var itType *types.Named
